@@ -5,3 +5,4 @@ discovered dependency can never be declared up to date).
 -/
 import LLBuild.Props.C11
 import LLBuild.Props.C11Engine
+import LLBuild.Props.C08X
